@@ -92,6 +92,16 @@ def respond (line : String) : String :=
     match parseAll parseDTx? (txs.filter (· ≠ "")) with
     | none => "bad-request"
     | some ts => "ok " ++ hex6 (Dsl.write ts)
+  | "awards" :: sym :: ord :: aws =>
+    match parseInt? ord, parseAll parseAward? (aws.filter (· ≠ "")) with
+    | some d, some as =>
+      match Awards.build [] as with
+      | none => "reject"
+      | some es =>
+        match Awards.lookup es sym d with
+        | some (v, p) => s!"ok {v} {showRat p}"
+        | none => "none"
+    | _, _ => "bad-request"
   | "spec" :: txs =>
     match parseAll parseTx? (txs.filter (· ≠ "")) with
     | none => "bad-request"
